@@ -433,6 +433,82 @@ def r10_similarity_scans_all(idx, r):
     r.require(any(isinstance(x.value, ast.Constant) and x.value.value is True for x in after), "true-after-scan", f, node=lp, msg="a completed scan without mismatch must answer True")
 
 
+def r11_component_weights_and_trace(idx, r):
+    """(a) getWeight(block) is extensive in the block's height (parameter x block volume); inside a block the components share that height, so
+    the per-component weight of a by-component average is block weight x component AREA.  Multiplying by a volume (or height, or mass) counts
+    the height twice and members of different height are mis-weighted.  (b) the nuclide-temperature average substitutes the trace density
+    exactly for a nuclide the component HOLDS with density zero; a nuclide the component does not hold contributes 0 (three-case evaluation)."""
+    n = 0
+    forms = set()
+    for q, f in ((f.qualname, f) for f in idx.module(M).all_funcs() if f.name == "_getAverageComponentNucs"):
+        loop = next((x for x in walk_local(f.node) if isinstance(x, ast.For) and isinstance(x.iter, ast.Call) and dotted(x.iter.func) == "zip" and isinstance(x.target, ast.Tuple) and len(x.target.elts) == 2), None)
+        if loop is None:
+            raise AnchorMissing(f"{q}: loop over zip(components, bWeights)")
+        cv, wv = norm(loop.target.elts[0]), norm(loop.target.elts[1])
+        ws = [s_ for s_ in iter_stores(loop) if s_.attr == "weight" and s_.kind == "assign" and s_.value is not None]
+        if len(ws) != 1:
+            raise AnchorMissing(f"{q}: weight = ...")
+        n += 1
+        v = ws[0].value
+        geo = sorted(call_attr(c) for c in ast.walk(v) if isinstance(c, ast.Call) and isinstance(c.func, ast.Attribute) and norm(c.func.value) == cv)
+        okw = isinstance(v, ast.BinOp) and isinstance(v.op, ast.Mult) and any(isinstance(x, ast.Name) and x.id == wv for x in ast.walk(v)) and geo in (["getArea"], ["getComponentArea"])
+        forms.add(tuple(geo))
+        r.require(okw, f"{q}:block-weight-times-area", f, node=ws[0].stmt,
+                  msg=f"the component weight is `{norm(v)}` (geometric factors {geo}): the block weight already carries the block's volume, so the factor inside the block is the component's "
+                      "area; with a volume the height is counted twice and members of different heights are averaged with the wrong weights")
+    if n < 2:
+        raise AnalysisError(f"only {n} _getAverageComponentNucs implementations found")
+    r.require(len(forms) == 1, "sibling-component-weights-agree", idx.func(M + ".getBlockNuclideTemperatureAvgTerms"), msg=f"the sibling by-component averages use different geometric factors: {forms}")
+    outer = idx.func(M + ".getBlockNuclideTemperatureAvgTerms")
+    inner = next((x for x in outer.node.body if isinstance(x, ast.FunctionDef) and x.name == "getNumberDensitiesWithTrace"), None)
+    if inner is None:
+        raise AnchorMissing("getBlockNuclideTemperatureAvgTerms: getNumberDensitiesWithTrace")
+    env = single_assign_env(inner)
+    ret = next((x for x in ast.walk(inner) if isinstance(x, ast.Return) and isinstance(x.value, ast.ListComp)), None)
+    if ret is None or len(ret.value.generators) != 1:
+        raise AnalysisError("getNumberDensitiesWithTrace: list comprehension over the nuclide names expected")
+    comp, key = inner.args.args[0].arg, norm(ret.value.generators[0].target)
+    elt = propagate(ret.value.elt, env)
+    table = f"{comp}.p.numberDensities"
+
+    def ev(e, has, val):
+        if isinstance(e, ast.Constant):
+            return e.value
+        if isinstance(e, ast.Name):
+            if e.id == "TRACE_NUMBER_DENSITY":
+                return "TRACE"
+            raise AnalysisError(f"getNumberDensitiesWithTrace: name `{e.id}` not understood")
+        if isinstance(e, ast.IfExp):
+            return ev(e.body, has, val) if ev(e.test, has, val) else ev(e.orelse, has, val)
+        if isinstance(e, ast.BoolOp):
+            res = None
+            for x in e.values:
+                res = ev(x, has, val)
+                if isinstance(e.op, ast.Or) and res:
+                    return res
+                if isinstance(e.op, ast.And) and not res:
+                    return res
+            return res
+        if isinstance(e, ast.UnaryOp) and isinstance(e.op, ast.Not):
+            return not ev(e.operand, has, val)
+        if isinstance(e, ast.Subscript) and norm(e.value) == table and norm(e.slice) == key:
+            if not has:
+                raise AnalysisError("KeyError path")
+            return val
+        if isinstance(e, ast.Call) and call_attr(e) == "get" and norm(e.func.value) == table and e.args and norm(e.args[0]) == key:
+            return val if has else (ev(e.args[1], has, val) if len(e.args) > 1 else None)
+        if isinstance(e, ast.Compare) and len(e.ops) == 1 and norm(e.left) == key and norm(e.comparators[0]) == table and isinstance(e.ops[0], (ast.In, ast.NotIn)):
+            return has if isinstance(e.ops[0], ast.In) else not has
+        if isinstance(e, ast.Compare) and len(e.ops) == 1 and isinstance(e.ops[0], (ast.Is, ast.IsNot, ast.Eq, ast.NotEq, ast.Gt, ast.Lt)):
+            a, b = ev(e.left, has, val), ev(e.comparators[0], has, val)
+            return {ast.Is: a is b, ast.IsNot: a is not b, ast.Eq: a == b, ast.NotEq: a != b, ast.Gt: (a or 0) > (b or 0), ast.Lt: (a or 0) < (b or 0)}[type(e.ops[0])]
+        raise AnalysisError(f"getNumberDensitiesWithTrace: `{norm(e)[:60]}` outside the evaluated fragment")
+    got = [ev(elt, True, 0.5), ev(elt, True, 0.0), ev(elt, False, None)]
+    r.require(got == [0.5, "TRACE", 0.0], "trace-density:only-for-held-zero-density-nuclides", outer, node=ret,
+              msg=f"(held with density 0.5, held with density 0, not held) -> {got}; expected [0.5, 'TRACE', 0.0]: a component that does not hold the nuclide must not contribute - otherwise a "
+                  "zero-density nuclide tracked in the fuel gets the all-component volume-average temperature instead of the fuel temperature")
+
+
 def run(idx, chk):
     chk.explanation = (
         "C20: every weighted mean in the block-collection classes is typed with a role generator W for the weights: the result must be of degree "
@@ -461,3 +537,5 @@ def run(idx, chk):
                  necessary="means are 'unchanged by ... rescaling all weights'")
     chk.run_rule("R20.10", "block similarity is affirmed only after every member was compared", lambda r: r10_similarity_scans_all(idx, r), floor=2,
                  necessary="'per matching component': components are averaged by position only when all members match")
+    chk.run_rule("R20.11", "by-component weights are block weight x component area; the trace density stands in only for held zero-density nuclides", lambda r: r11_component_weights_and_trace(idx, r), floor=4,
+                 necessary="representative densities are the weight-normalised mean of the members; a nuclide's temperature is averaged over the components that hold it")
